@@ -81,6 +81,9 @@ func TestVerifChainScript(t *testing.T) {
 	w := newVWriter(out)
 	defer w.close()
 	rng := rand.New(rand.NewSource(seed*31 + 5))
+	nscripts := 0
+	ngroups := 0
+	defer recordGenFailure(w, func() { fmt.Printf("VERIF-STAT trees=%d scripts=%d events=%d\n", ngroups, nscripts, w.n) })
 	// group scripts by tree
 	type group struct {
 		key string
@@ -104,7 +107,7 @@ func TestVerifChainScript(t *testing.T) {
 		}
 		g.scs = append(g.scs, &sc)
 	}
-	nscripts := 0
+	ngroups = len(groups)
 	for gi, g := range groups {
 		tr, by := realise(rng, fmt.Sprintf("script-%d", gi), g.scs[0])
 		w.emit(tr.describe())
